@@ -33,6 +33,9 @@ def calls_of(entries):
     return done, stack
 
 
+KEYS = {}
+
+
 def coq_pipeline(pl):
     def bz(b):
         return "None" if b is None else ("(Some (BInt (%d)%%Z))" % b if isinstance(b, int) else "(Some BOther)")
@@ -42,7 +45,7 @@ def coq_pipeline(pl):
         if k == "Filter":
             items.append("QFilter %d%%nat" % i)
         elif k == "Sort":
-            items.append("QSort (%d%%nat, %d%%nat)" % (i, len(t["keys"])))
+            items.append("QSort (%d%%nat, %d%%nat, %d%%nat)" % (i, len(t["keys"]), KEYS.setdefault(json.dumps(t["keys"]), len(KEYS))))
         elif k == "Aggregate":
             items.append("QAggregate %d%%nat" % i)
         elif k == "Take":
@@ -64,7 +67,8 @@ def pluck_stream(ck, srcs, targets=("sql.sqlite", "sql.generic", "sql.mssql")):
         return I.setdefault(t, len(I) + 1)
     exprs, meta = [], []
     seen_hook, ok_compiles = False, 0
-    T = "nat (nat * nat) nat erange nat"
+    T = "nat (nat * nat * nat) nat erange nat"      # a sort = (position, number of keys, class of equal key lists)
+    SAME = "(fun a b : nat * nat * nat => Nat.eqb (snd a) (snd b))"
     for rq, a in zip(reqs, ans):
         done, open_ = calls_of(a.get("entries", []))
         if "ok" in a:
@@ -88,10 +92,10 @@ def pluck_stream(ck, srcs, targets=("sql.sqlite", "sql.generic", "sql.mssql")):
             p = coq_pipeline(pl)
             exprs.append(
                 "(let c := pluck %s %s in "
-                "((q_where %s c, q_group %s c, q_having %s c), (map fst (match q_order %s c with Some s => [s] | None => [] end), q_distinct %s c, q_distinct_on %s c), "
-                " clauses_code (select_limit %s %s (match q_order %s c with Some s => snd s | None => O end) (q_distinct %s c) [%s] (q_takes %s c)), "
-                " (clause_ordered %s, supported %s %s, one_agg %s %s, sorts_behind_agg %s %s)))"
-                % (T, p, T, T, T, T, T, T, "true" if c["in"]["use_fetch"] else "false", barec, T, T, "; ".join(proj), T, kinds, T, p, T, p, T, p))
+                "((q_where %s c, q_group %s c, q_having %s c), (map (fun s => fst (fst s)) (match q_order %s c with Some s => [s] | None => [] end), q_distinct %s c, q_distinct_on %s c), "
+                " clauses_code (select_limit %s %s (match q_order %s c with Some s => snd (fst s) | None => O end) (q_distinct %s c) [%s] (q_takes %s c)), "
+                " (theorem_applies %s %s %s, (clause_ordered (kinds_theta %s %s), clause_ordered %s))))"
+                % (T, p, T, T, T, T, T, T, "true" if c["in"]["use_fetch"] else "false", barec, T, T, "; ".join(proj), T, T, SAME, p, T, p, kinds))
             meta.append((rq, c))
     if ok_compiles and not seen_hook:
         ck.violation("no verif:select_pipeline_* line in any of %d successful compiles: the hook of translate_select_pipeline is missing" % ok_compiles,
@@ -146,10 +150,11 @@ def pluck_stream(ck, srcs, targets=("sql.sqlite", "sql.generic", "sql.mssql")):
                         ("takes", any(t["kind"] == "Take" for t in pl))):
             if on:
                 ck.stat("pluck", "has:" + fld)
-        co, sup, one, sba = co
-        # the hypotheses of c01_pluck_sound on this very pipeline (kinds with their Sorts)
+        (co, sup, one, sba), (co_raw, co_split) = co
+        # the hypotheses of c01_pluck_sound_resorted on this very pipeline
         ck.stat("pluck", "theorem-applies" if (co and sup and one and sba) else
                 "outside:" + ",".join(n for n, ok in (("clause-order", co), ("supported", sup), ("one-aggregate", one), ("sorts-behind-aggregate", sba)) if not ok))
+        ck.stat("pluck", "clause-ordered-as-logged" if co_raw else "clause-ordered-only-without-re-emitted-sorts" if co else "not-clause-ordered")
         if problems:
             ck.disagreement("clause assembly of translate_select_pipeline differs from Model/SelectPluck.v (%s) on %s [%s]" % (
                 ", ".join(problems), rq["src"].replace("\n", " | ")[:200], rq["target"]),
